@@ -273,6 +273,9 @@ func oracleRT(args []string, in net.Addr, sa unix.Sockaddr, p1 bool, out net.Add
 		o, ok := out.(*net.UnixAddr)
 		if sa == nil || !ok || o == nil || o.Name != ua.Name {
 			bad("unix-name-changed", fmt.Sprintf("got %v", out))
+		} else if ua.Net == "unix" && o.Net != "unix" {
+			// a stream address (the only kind gnet serves) must come back as the same address
+			bad("unix-net-changed", fmt.Sprintf("net %q -> %q", ua.Net, o.Net))
 		}
 		return
 	}
@@ -550,6 +553,9 @@ func exec(name string, a []string) {
 		oracleRTS(a[0], sa, na, p1, sa2, p2)
 	case "lsa", "lsau":
 		execLSA(name, l)
+	case "int":
+		w.Op(l)
+		runScenario(a[0], 120, tr.NewRand(17))
 	default:
 		panic("unknown op " + name)
 	}
@@ -663,6 +669,41 @@ func zonePool() []string {
 	return zs
 }
 
+// pickZone draws a zone with a fixed class distribution (the pool itself is dominated by malformed strings).
+func pickZone(r *tr.Rand, zones []string) string {
+	want := zEmpty
+	switch k := r.Intn(100); {
+	case k < 30:
+		return ""
+	case k < 50:
+		want = zName
+	case k < 70:
+		want = zIndexFree
+	case k < 80:
+		want = zIndexUsed
+	case k < 87:
+		want = zIndexBig
+	default:
+		want = zOther
+	}
+	if want == zIndexFree && r.Chance(60) {
+		for {
+			v := 1 + r.Intn(big-1)
+			z := strconv.Itoa(v)
+			if c, _ := zoneClass(z); c == zIndexFree {
+				return z
+			}
+		}
+	}
+	for try := 0; try < 200; try++ {
+		z := zones[r.Intn(len(zones))]
+		if c, _ := zoneClass(z); c == want {
+			return z
+		}
+	}
+	return ""
+}
+
 func randIP(r *tr.Rand) (net.IP, string) {
 	switch k := r.Intn(100); {
 	case k < 35:
@@ -729,7 +770,7 @@ func generate(seed uint64, tier string) {
 		newCase("rt", "roundtrip-random")
 		for j := 0; j < 250 && i < total; j++ {
 			ip, cls := randIP(r)
-			zone := zones[r.Intn(len(zones))]
+			zone := pickZone(r, zones)
 			zc, _ := zoneClass(zone)
 			kind := kindOf(r)
 			exec("rt", []string{kind, ipArg(ip), tr.I(randPort(r)), tr.X([]byte(zone))})
